@@ -26,22 +26,22 @@ def lexer_language(vd, drv, wd, tier):
     on the real parser: verdict against the language, parse tree against the segmentation of the model."""
     runs = [(6, ["Q", "PL", "PR", "L", "R", "X"]), (9, ["Q", "PL", "PR", "R"]), (6, ["Q", "PL", "PR", "N", "X"]), (6, ["Q", "PL", "PR", "BQ", "BSQ", "R"]), (7, ["Q", "PL", "PR", "PPL", "PPR"])]
     if tier == "thorough":
-        runs = [(7, ["Q", "PL", "PR", "L", "R", "X"]), (10, ["Q", "PL", "PR", "R"]), (8, ["Q", "PL", "PR", "L", "R"]),
+        runs = [(7, ["Q", "PL", "PR", "L", "R", "X"]), (9, ["Q", "PL", "PR", "R"]), (8, ["Q", "PL", "PR", "L", "R"]),
                 (7, ["Q", "PL", "PR", "N", "X"]), (7, ["Q", "PL", "PR", "BQ", "BSQ", "R"]), (8, ["Q", "PL", "PR", "BSQ", "R"]), (8, ["Q", "PL", "PR", "PPL", "PPR"])]
     # non-vacuity: without the reset of in_string at "%(" the theorem fails
     m = tlc.run_tlc("MCLexer", constants={"MaxLen": 9, "NoReset": True, "Pinned": "none", "SpliceLimit": SPLICE_LIMIT, "Tok": ["Q", "PL", "PR", "R"]}, workers=1, timeout=900, heap="8g")
-    if "Assumption" not in m.out and "assumption" not in m.out:
+    if "is false" not in m.out:
         raise common.ToolError("Lexer.tla: the NoReset mutant is not caught\n" + m.out[-1500:])
     # ... nor without the copying of newlines, nor without the escaped backslash (the states before two repairs)
     for pin in ("dropnl", "nopair", "nopct"):
         m = tlc.run_tlc("MCLexer", constants={"MaxLen": 3, "NoReset": False, "Pinned": pin, "SpliceLimit": SPLICE_LIMIT, "Tok": ["Q", "PL", "N"]}, workers=1, timeout=900, heap="4g")
-        if "Assumption" not in m.out and "assumption" not in m.out:
+        if "is false" not in m.out:
             raise common.ToolError("Lexer.tla: the mutant %s is not caught\n" % pin + m.out[-1500:])
     # the nesting limit, where the bound of the model reaches it: both layers agree for limits 1 and 2
     for lim in (1, 2):
         m = tlc.run_tlc("MCLexer", constants={"MaxLen": 9, "NoReset": False, "Pinned": "none", "SpliceLimit": lim, "Tok": ["Q", "PL", "PR", "X"]}, workers=1, timeout=900, heap="8g")
         if not m.ok:
-            if "ssumption" in m.out:
+            if "ssumption" in m.out and "is false" in m.out:
                 vd.observe("model:lexer: mechanism and language differ at splice limit %d" % lim, {"output": m.out[-3000:]})
             else:
                 raise common.ToolError("MCLexer failed\n" + m.out[-2000:])
@@ -51,7 +51,7 @@ def lexer_language(vd, drv, wd, tier):
         r = tlc.run_tlc("LexerGen", constants={"MaxLen": n, "NoReset": False, "Pinned": "none", "SpliceLimit": SPLICE_LIMIT, "Tok": tok, "OutFile": out, "Shard": 0, "NShards": 1},
                         workers=1, timeout=1500, heap="12g")
         if not r.ok or not os.path.exists(out):
-            if "ssumption" in r.out:
+            if "ssumption" in r.out and "is false" in r.out:
                 vd.observe("model:lexer: the mechanism does not accept exactly the language", {"output": r.out[-3000:]})
                 continue
             raise common.ToolError("LexerGen failed\n" + r.out[-2000:])
